@@ -8,7 +8,7 @@
            `why_not_query` builds: rules + base data, **no derived data**; greedy (first match).
   The driver runs `truthful`/`blockerHolds` on the explanation the REAL `.why_not` returned.
 -/
-import ILV.Lemmas.ProvMatch
+import ILV.Lemmas.ProvWhyNot
 namespace ILV.Props.C23
 open ILV ILV.Prov
 
@@ -123,5 +123,54 @@ theorem C23_refuted_neg_invisible : ¬ C23_statement := by
     (by decide) (by decide) (by decide)
   revert this
   decide
+
+/-- **C23_partial.** The excluded inputs are named by decidable predicates on the clauses of the
+    queried relation: `Rule.noChoice` (every variable of every positive body atom occurs in the head, so
+    no positive atom has to choose a binding — excludes `greedy_first_match`), `Rule.baseOnly` (all body
+    atoms, positive or negated, are over relations without rules — excludes `derived_atom_invisible` and
+    `neg_derived_invisible`), `Rule.plainVars` (no head variable is spelled `_placeholder_…`). `M` is any
+    derived data that has no tuples for relations without rules (true of `pmEval`'s result and of the
+    engine's). Then the explanation `.why_not` gives is truthful, for every program, base and target. -/
+theorem C23_partial (prog : Program) (base M : DB) (rel : String) (target : Tuple) (expl : List ClauseExpl)
+    (hM : ∀ r, hasRulesFor prog r = false → M.get r = [])
+    (hcl : ∀ r ∈ prog, r.head.rel = rel → r.noChoice = true ∧ r.baseOnly prog = true ∧ r.plainVars = true)
+    (h : whyNot prog base rel target = some expl) :
+    truthful prog base M rel target expl = true := by
+  unfold whyNot explainWhyNot at h
+  split at h
+  · cases h
+  · simp only [Option.some.injEq] at h
+    subst h
+    have hg : ∀ r ∈ prog.filter (fun r => r.head.rel == rel), r.noChoice = true ∧ r.baseOnly prog = true ∧ r.plainVars = true := by
+      intro r hr
+      rw [List.mem_filter] at hr
+      exact hcl r hr.1 (by simpa using hr.2)
+    obtain ⟨e1, e2⟩ := explainClauses_exact prog base M hM
+      { rules := prog, base := base, derived := none } rfl rfl target _ 0 hg
+    unfold truthful
+    simp only [Ctx.rulesFor]
+    split
+    · rename_i hf; exact e1 hf
+    · rename_i hf
+      exact e2 (by simpa using hf)
+
+/-- the hypotheses of `C23_partial` are met by a non-trivial program: a clause with a join on head
+    variables, a negated stored atom with an existential position and a comparison; `r(2,3)` is explained
+    truthfully (`e(2,3)` matches, `!f(3)` is blocked by the stored `f(3)`). -/
+def pProg : Program :=
+  [⟨⟨"r", [.var "X", .var "Y"]⟩, [.pos ⟨"e", [.var "X", .var "Y"]⟩, .neg ⟨"f", [.var "Y"]⟩, .cmp (.var "X") .lt (.var "Y")]⟩]
+def pBase : DB := [("e", [[.i64 1, .i64 2], [.i64 2, .i64 3]]), ("f", [[.i64 3]])]
+example : truthful pProg pBase [("r", [[.i64 1, .i64 2]])] "r" [.i32 2, .i32 3]
+    [{ idx := 0, ruleIdx := 0, bindings := [("Y", .i32 3), ("X", .i32 2)], facts := [("e", [.i64 2, .i64 3], .edb)],
+       blocker := some (.negSucceeded 1 "f" [.i64 3]) }] = true :=
+  C23_partial pProg pBase _ "r" [.i32 2, .i32 3] _
+    (by
+      intro r hr
+      have hne : (r == "r") = false := by
+        cases h : (r == "r") with
+        | false => rfl
+        | true => rw [beq_iff_eq] at h; subst h; simp [hasRulesFor, pProg] at hr
+      simp [DB.get, List.lookup, hne])
+    (by decide) (by decide)
 
 end ILV.Props.C23
